@@ -191,7 +191,11 @@ def case(item):
         if rnd.random() < 0.5:
             pre.append(('build', [rnd.choice(p.order)], dict(j=1, keep=False, forced=False)))
         if rnd.random() < 0.5:
-            pre.append(('rm', rnd.choice(p.order)))
+            # (not a checksummed target: redo takes a hand-removed one for "maybe changed" at its first evaluation and for
+            #  "changed" at later ones, so which dependents are rebuilt depends on evaluation order even serially - see gen.py)
+            cand = [n for n in p.order if not p.targets[n].get('stamp')]
+            if cand:
+                pre.append(('rm', rnd.choice(cand)))
         if keep:
             fl = [n for n in p.order if p.targets[n].get('flag') is not None]
             if fl:
@@ -234,16 +238,42 @@ def case(item):
         for n, c in sorted(exA.items()):
             if c > 1:
                 anoms.append(dict(key='executed-more-than-once:serial', what='%s.do ran %d times in the serial twin' % (n, c)))
-        if rA.rc != rB.rc:
+        if (rA.rc == 0) != (rB.rc == 0):
             anoms.append(dict(key='exit-status-differs', what='serial exit %s, scheduled (-j%d%s) exit %s; stderr tail: %s' % (rA.rc, j, ' shuffled' if shuffle else '', rB.rc, rB.err[-300:].replace('\n', ' | '))))
+        sets['exit_status_pairs'] = ['%s/%s' % (rA.rc, rB.rc)]
         ok = rA.rc == 0
+        # Known finding: with two nested levels of checksummed targets undecided, redo gives up after one out-of-band round and
+        # rebuilds the target above them; in a parallel run whether both levels are still undecided depends on the schedule.
+        # Targets that only the scheduled run executed are attributed to it if each of them either is such a target
+        # (judged from the reference model's state before the command) or depends on one that was rebuilt for that reason.
+        only_b = set(exB) - set(exA)
+        explained = set()
+        if ok and only_b and not (set(exA) - set(exB)):
+            try:
+                roots = set(n for n in only_b if A.m.rounds_needed(n) >= 2 and A.m.clean_if_fully_settled(n))
+            except Exception:
+                roots = set()
+            explained = set(roots)
+            grew = True
+            while grew:
+                grew = False
+                for n in only_b - explained:
+                    if set(p.curdeps(n)) & explained or (p.targets[n].get('opt') in explained):
+                        explained.add(n)
+                        grew = True
+            if explained != only_b:
+                explained = set()
+        if explained:
+            anoms.append(dict(key='schedule-dependent-overbuild:nested-checksummed-targets-not-settled-in-one-round',
+                              what='only the scheduled run (-j%d) rebuilt %s; contents equal' % (j, sorted(explained))))
+            obs['schedule_dependent_overbuilds'] = 1
         if ok or keep:
             sa, sb = snapshot(A), snapshot(B)
             diff = sorted(n for n in sa if sa[n] != sb[n])
             if diff:
                 anoms.append(dict(key='contents-differ', what='%s: serial has %r, scheduled has %r (%d targets differ)' % (diff[0], (sa[diff[0]] or b'')[:70], (sb[diff[0]] or b'')[:70], len(diff))))
         if ok:
-            if set(exA) != set(exB):
+            if set(exA) != set(exB) and not explained:
                 anoms.append(dict(key='executed-set-differs', what='serial ran %s, scheduled ran %s' % (sorted(set(exA) - set(exB)), sorted(set(exB) - set(exA)))))
             fa, da, ia, _ = norm_db(A.top)
             fb, db_, ib, _ = norm_db(B.top)
@@ -253,6 +283,8 @@ def case(item):
             for n in names:
                 if fa.get(n) != fb.get(n):
                     fields = [k_ for k_ in (fa.get(n) or fb.get(n)) if (fa.get(n) or {}).get(k_) != (fb.get(n) or {}).get(k_)]
+                    if n in explained and set(fields) <= {'changed', 'stamp', 'stamp_matches_file'}:
+                        continue
                     anoms.append(dict(key='recorded-state-differs:files:%s' % '+'.join(fields), what='Files row %s: serial %s, scheduled %s' % (n, fa.get(n), fb.get(n))))
                     break
             if da != db_:
@@ -288,7 +320,7 @@ RULE = ('twin replay: the same generated program and the same serial pre-history
         'before the blocking lock wait) in the second. Graphs: sharing-rich (leaves with up to 8 dependents, shared checksummed and always '
         'targets, two layers), deep chains with checksummed links and several consumers, fans of 20-60 default-rule leaves under overlapping '
         'groups, random programs. Oracles: no target has more than one S record in the scheduled run (nor in the serial one); exit status '
-        'equal; every target file byte-equal; on success the set of executed targets is equal and the normalised database is equal (Files by '
+        'equal (zero / non-zero; the pairs seen are listed); every target file byte-equal; on success the set of executed targets is equal and the normalised database is equal (Files by '
         'name: generated/override flags, failed, checksum, stamp minus mtime/inode, changed run id mapped to this-run/older (the checked mark is a within-run memo no later run can observe and is left out); Deps edge '
         'set with modes) and the recorded stamp of every target executed in the run matches its file on disk. Non-trivial: scheduled run executed >=3 scripts at -j>1. Distinct: '
         'graph shape x schedule parameters x number of scripts.')
